@@ -472,6 +472,15 @@ func (t tag) referencedTags() []string {
 	return slices.AppendSeq(make([]string, 0, len(m)), maps.Keys(m))
 }
 
+// canAttachConverter reports whether the tag's query is simple enough to have converters attached.
+func (t *tag) canAttachConverter() bool {
+	return t.features.MainFeatures&query.FeatureFilterData == 0 && t.features.SubQueryFeatures&query.FeatureFilterData == 0 && len(t.features.MainTags) == 0 && len(t.features.SubQueryTags) == 0
+}
+
+func errTagQueryTooComplex(tagName string) error {
+	return fmt.Errorf("error: cannot attach converter to tag %s because it's query is too complex", tagName)
+}
+
 func (t tag) converterNames() []string {
 	converterNames := make([]string, len(t.converters))
 	for i, converter := range t.converters {
@@ -1235,6 +1244,19 @@ func (mgr *Manager) UpdateTag(name string, operation UpdateTagOperation) error {
 				mgr.startConverterJobIfNeeded()
 			}
 			if info.convertersUpdated {
+				// validate the new converter list before changing anything
+				converterNames := tag.converterNames()
+				for _, converterName := range info.setConverterNames {
+					if slices.Contains(converterNames, converterName) {
+						continue
+					}
+					if _, ok := mgr.converters[converterName]; !ok {
+						return fmt.Errorf("unknown converter %q", converterName)
+					}
+					if !tag.canAttachConverter() {
+						return fmt.Errorf("failed to attach converter %q to tag %q: %w", converterName, name, errTagQueryTooComplex(name))
+					}
+				}
 				// detach deselected converters from tag
 				for _, converter := range tag.converters {
 					if slices.Contains(info.setConverterNames, converter.Name()) {
@@ -1245,17 +1267,13 @@ func (mgr *Manager) UpdateTag(name string, operation UpdateTagOperation) error {
 					}
 				}
 				// attach new converters to tag
-				converterNames := tag.converterNames()
+				converterNames = tag.converterNames()
 				for _, converterName := range info.setConverterNames {
 					if slices.Contains(converterNames, converterName) {
 						continue
 					}
-					if converter, ok := mgr.converters[converterName]; !ok {
-						return fmt.Errorf("unknown converter %q", converterName)
-					} else {
-						if err := mgr.attachConverterToTag(tag, name, converter); err != nil {
-							return fmt.Errorf("failed to attach converter %q to tag %q: %w", converterName, name, err)
-						}
+					if err := mgr.attachConverterToTag(tag, name, mgr.converters[converterName]); err != nil {
+						return fmt.Errorf("failed to attach converter %q to tag %q: %w", converterName, name, err)
 					}
 				}
 				mgr.startConverterJobIfNeeded()
@@ -1871,8 +1889,8 @@ func (mgr *Manager) attachConverterToTag(tag *tag, tagName string, converter *co
 	// cannot attach converter to tag which references other tags or matches on stream data
 	// because we don't want to recursively trigger converters
 	// TODO: we could allow data queries if they only reference the stream's own plain data
-	if tag.features.MainFeatures&query.FeatureFilterData != 0 || tag.features.SubQueryFeatures&query.FeatureFilterData != 0 || len(tag.features.MainTags) > 0 || len(tag.features.SubQueryTags) > 0 {
-		return fmt.Errorf("error: cannot attach converter to tag %s because it's query is too complex", tagName)
+	if !tag.canAttachConverter() {
+		return errTagQueryTooComplex(tagName)
 	}
 
 	tag.converters = append(tag.converters, converter)
